@@ -411,6 +411,7 @@ type c10User struct {
 	City  c10City
 	Flag  bool
 	Score int32
+	Nick  string `sql:",implicitnull"`
 }
 
 func c10Setup(t *testing.T) *DB {
@@ -425,13 +426,13 @@ func c10Setup(t *testing.T) *DB {
 	}
 	i := func(n int64) driver.Value { return n }
 	c10Drv.tables["users"] = &c10Table{
-		columns: []string{"id", "name", "age", "city", "flag", "score"},
+		columns: []string{"id", "name", "age", "city", "flag", "score", "nick"},
 		rows: [][]driver.Value{
-			{i(1), "alice", i(30), "sf", i(1), i(10)},
-			{i(2), "bob", nil, "sf", i(0), i(20)},
-			{i(3), "bob", i(30), "nyc", i(1), i(10)},
-			{i(4), "carol", i(41), "nyc", i(0), i(-5)},
-			{i(5), "", nil, "", i(0), i(0)},
+			{i(1), "alice", i(30), "sf", i(1), i(10), "al"},
+			{i(2), "bob", nil, "sf", i(0), i(20), nil},
+			{i(3), "bob", i(30), "nyc", i(1), i(10), "bo"},
+			{i(4), "carol", i(41), "nyc", i(0), i(-5), nil},
+			{i(5), "", nil, "", i(0), i(0), "x"},
 		},
 	}
 	return NewDB(conn, schema)
@@ -456,6 +457,9 @@ func c10Filters() []c10Named {
 		{"name:bob", Filter{"name": "bob"}},
 		{"name:&bob", Filter{"name": &bob}},
 		{"name:empty", Filter{"name": ""}},
+		{"nick:empty (implicit null)", Filter{"nick": ""}},
+		{"nick:al", Filter{"nick": "al"}},
+		{"nick:empty,name:bob", Filter{"nick": "", "name": "bob"}},
 		{"age:nil", Filter{"age": nil}},
 		{"age:(*int64)(nil)", Filter{"age": nilAge}},
 		{"age:int64(30)", Filter{"age": int64(30)}},
